@@ -131,6 +131,8 @@ def run_ensemble(rng, obs):
     if not reused:     # (an instance that has run before brings its own counters along: counts are judged for fresh nested solvers)
         ck(total == len(calls), 'total evaluation count equals the number of real cost calls', total=int(total), real=len(calls), step=step,
            members=list(map(int, allN)))
+    ck(len(calls) >= len(allE), 'every member starts inside the strict ranges', real_cost_calls=len(calls), members=len(allE), best=be,
+       note='the cost is finite everywhere: a member that starts inside the ranges evaluates at least its starting point')
     ck(not bad_box, 'every cost call of every member lies inside the strict ranges', first=bad_box[:1])
     ck(not bad_cons, 'every cost call of every member satisfies the constraints', first=bad_cons[:1], cons=cons)
     if not reused:
